@@ -73,6 +73,11 @@ Definition new_order (name strat mk sel : Z) (sd : side) (t : otspec) (now : Z) 
      so_mver := None; so_piq2 := 0; so_bsp := false;
      so_created := now; so_placed := None; so_stat_t := now; so_done_t := None; so_in_live := false |}.
 
+(* SimulatedExecution._reset_order (repair of F-C03-1): the request is answered, the order goes back to executable unless it has
+   completed while the request was in flight *)
+Definition reset_order (cs : list status) (now : Z) (o : sorder) : sorder :=
+  if status_eqb (so_status o) SExecComplete then o else executable cs now o.
+
 Definition exec_pkg (tb : tiebreak) (cf : config) (now : Z) (s : sim) (p : pkg) : sim :=
   match get_market (pk_market p) (s_markets s) with
   | None => s
@@ -102,18 +107,18 @@ Definition exec_pkg (tb : tiebreak) (cf : config) (now : Z) (s : sim) (p : pkg) 
       | KCancel =>
           let '(o1, ok, _) := sim_cancel b o in
           let o2 := if ok then (if remaining o1 =? 0 then exec_complete cs now o1 else executable cs now o1)
-                    else executable cs now o1 in
+                    else reset_order cs now o1 in
           mk_sim (put s o2) (s_bet s) (s_next_name s) (s_aborted s) (s_tx s) (s_tx_failed s + (if ok then 0 else 1))
       | KUpdate =>
           let ok := sim_update (mk_static m) b o in
-          mk_sim (put s (executable cs now o)) (s_bet s) (s_next_name s) (s_aborted s) (s_tx s) (s_tx_failed s + (if ok then 0 else 1))
+          mk_sim (put s (reset_order cs now o)) (s_bet s) (s_next_name s) (s_aborted s) (s_tx s) (s_tx_failed s + (if ok then 0 else 1))
       | KReplace =>
           (* replace_instructions skips EXECUTION_COMPLETE orders; with one order per package the zip is then empty *)
           if status_eqb (so_status o) SExecComplete then mk_sim (s_markets s) (s_bet s) (s_next_name s) (s_aborted s) (s_tx s + 1) (s_tx_failed s)
           else
           let '(o1, ok, sc) := sim_cancel b o in
           if negb ok then
-            mk_sim (put s (executable cs now o1)) (s_bet s) (s_next_name s) (s_aborted s) (s_tx s + 1) (s_tx_failed s + 1)
+            mk_sim (put s (reset_order cs now o1)) (s_bet s) (s_next_name s) (s_aborted s) (s_tx s + 1) (s_tx_failed s + 1)
           else
             let o2 := exec_complete cs now o1 in
             let bet := s_bet s + 1 in
@@ -134,7 +139,7 @@ Definition exec_pkg (tb : tiebreak) (cf : config) (now : Z) (s : sim) (p : pkg) 
               let mks := upd_market (pk_market p) (fun m => set_orders m (mk_orders m ++ [r4])) mks in
               mk_sim mks bet (s_next_name s + 1) (s_aborted s) (s_tx s + 1) (s_tx_failed s)
             else
-              mk_sim (put s (executable cs now o2)) bet (s_next_name s) (s_aborted s) (s_tx s + 1) (s_tx_failed s)
+              mk_sim (put s (reset_order cs now o2)) bet (s_next_name s) (s_aborted s) (s_tx s + 1) (s_tx_failed s)
       end
     | _, _ => s
     end
